@@ -123,8 +123,10 @@ def mock_value(spec, task):
 
 
 def eval_case(case, rec):
+    import random
     import taskchain
     from taskchain.utils.testing import TestChain, create_test_task
+    random.seed(20261001)   # what a reproducibility fixture does before every test: helpers must not share a default dir
     prog = case['program']
     mod = prog['modules'][0]
     tmp = hyp.scratch_dir('tcv-c19-')
